@@ -35,3 +35,12 @@ def register(claim):
           "Partial: order independence up to isomorphism and closure of the merged database are decided per run by exhaustive permutation "
           "(k<=3 quick, k<=4 thorough) against the disjoint-union oracle, not by a Lean theorem. Conflicting fully-defined definitions are excluded.",
           "Lean 4 proof (merge_with flag algebra, cache invariant) + differential correspondence over all load orders", "DESIGN.md §5 C13")
+    claim("C16",
+          "Lean 4 theorems over a verbatim model of the ordering loop of write_python_table_native (std::map/std::set as ascending lists, the "
+          "pruning pass, the path-based cycle search with operator[] insertions, the edge-breaking step): for EVERY dependency graph the emitted "
+          "list has no duplicate (c16_each_once) and every dependency not reported broken is initialised before its dependent "
+          "(c16_unbroken_respected), proved by a loop invariant for any fuel. The model is tied to the real interrogate_module on all digraphs "
+          "over 3 libraries (4 in the thorough tier) and random ones up to 6, in several command-line orders.",
+          "Partial: termination and 'only cycle edges are broken' are checked per explored graph, not proved. The derivation of the graph from the "
+          "loaded databases is not modelled (the intended graph is given to the model).",
+          "Lean 4 proof (loop invariant over the ordering algorithm) + differential correspondence on all small digraphs", "DESIGN.md §5 C16")
